@@ -32,6 +32,7 @@ fn suite_board(cx: &mut Ctx, tier: &str, shard: usize, nshards: usize, variant: 
         let l = fam.len(); family_promotion(&mut frng, l + 300, &mut fam);
         family_boxed(&mut frng, 200, &mut fam);
         family_ep_boxed(&mut frng, 100, &mut fam);
+        family_ep_lines(&mut fam);
         for i in 0..n {
             let d = if i < seeds.len() && (i % nshards == shard) { seeds[i].clone() }
                     else if i % 3 != 0 { fam[cx.rng.below(fam.len())].clone() } else { synthetic(&mut cx.rng) };
@@ -80,6 +81,7 @@ fn suite_board(cx: &mut Ctx, tier: &str, shard: usize, nshards: usize, variant: 
     let before_defects = fam.len();
     family_rights_defects(&mut fam);
     family_ep_defects(&mut fam);
+    family_ep_lines(&mut fam);
     let n_defects = fam.len() - before_defects;
     let stride = tier_n(tier, 6, 1);
     let off = cx.rng.below(stride);
@@ -267,6 +269,10 @@ const GAME_ROOTS: &[&str] = &[
     "4k3/8/8/3pP3/8/8/8/4K3 w - d6 0 2",        // en passant available at the start
     "rnbqkbnr/pppp1ppp/8/4p3/4P3/8/PPPP1PPP/RNBQKBNR b KQkq - 0 2", // black first, many moves
     "7k/8/8/8/8/8/8/K7 b - - 0 1",
+    "5k2/8/8/8/8/8/8/4K2R w K - 0 1",            // castling gives check
+    "r3k3/8/8/8/8/8/8/3K4 b q - 0 1",
+    "4rkr1/4p1p1/8/8/8/8/8/4K2R w K - 0 1",      // castling gives mate
+    "3k4/8/8/8/8/8/8/R3K3 w Q - 0 1",
 ];
 
 /// scripted openings from the standard start that create unusual material early (three knights, two or three queens
@@ -341,10 +347,10 @@ fn random_game_from(cx: &mut GameCx, d: &Desc, len: usize, p_proto: u64, prefix:
 
 /// both sides shuffle one piece back and forth so that positions recur (with whatever rights/ep state the shuffle
 /// leaves), draw offers and declines interleaved
-fn dance_game(cx: &mut GameCx, d: &Desc, cycles: usize, p_proto: u64) {
+fn dance_game(cx: &mut GameCx, d: &Desc, cycles: usize, p_proto: u64, prelude_max: usize) {
     let (mut id, mut g, std_start) = match cx.root(d) { Some(x) => x, None => return };
     // a short random prelude
-    for _ in 0..cx.rng.below(6) {
+    for _ in 0..(if prelude_max == 0 { 0 } else { cx.rng.below(prelude_max) }) {
         let ms = sorted_moves(&g.get_position());
         if ms.is_empty() || !matches!(g.get_game_status(), GameStatus::Ongoing) { break }
         let m = ms[cx.rng.below(ms.len())].1;
@@ -404,7 +410,28 @@ fn suite_game(w: &mut dyn Write, tier: &str, seed: u64, shard: usize, nshards: u
         for i in 0..n3 {
             let d = if i % 2 == 0 { roots[cx.rng.below(roots.len())].clone() } else { Desc::from_fen(SEED_FENS[cx.rng.below(8)]) };
             let cycles = 2 + cx.rng.below(3);
-            dance_game(&mut cx, &d, cycles, if i % 3 == 0 { 15 } else { 0 });
+            dance_game(&mut cx, &d, cycles, if i % 3 == 0 { 15 } else { 0 }, 6);
+        }
+        // scripted rook / king shuffles from positions with single-wing rights: the same placement recurs with the rights
+        // gone on one side, then on both — occurrences that must not be added up
+        const RIGHTS_SCRIPTS: &[(&str, &str)] = &[
+            ("4k2r/8/8/8/8/8/8/4K2R w Kk - 0 1", "Rh1g1 Rh8g8 Rg1h1 Rg8h8 Rh1g1 Rh8g8 Rg1h1 Rg8h8 Rh1g1 Rh8g8 Rg1h1 Rg8h8"),
+            ("r3k3/8/8/8/8/8/8/R3K3 w Qq - 0 1", "Ra1b1 Ra8b8 Rb1a1 Rb8a8 Ra1b1 Ra8b8 Rb1a1 Rb8a8 Ra1b1 Ra8b8 Rb1a1 Rb8a8"),
+            ("r3k2r/8/8/8/8/8/8/R3K2R w KQkq - 0 1", "Rh1g1 Ra8b8 Rg1h1 Rb8a8 Ra1b1 Rh8g8 Rb1a1 Rg8h8 Rh1g1 Ra8b8 Rg1h1 Rb8a8"),
+            ("r3k2r/8/8/8/8/8/8/R3K2R w KQkq - 0 1", "Ke1e2 Ke8e7 Ke2e1 Ke7e8 Ke1e2 Ke8e7 Ke2e1 Ke7e8 Ke1e2 Ke8e7 Ke2e1 Ke7e8"),
+            ("4k2r/8/8/8/8/8/8/R3K3 w Qk - 0 1", "Ra1b1 Rh8g8 Rb1a1 Rg8h8 Ra1b1 Rh8g8 Rb1a1 Rg8h8 Ra1b1 Rh8g8 Rb1a1 Rg8h8"),
+            ("r3k3/8/8/8/8/8/8/4K2R b Kq - 0 1", "Ra8b8 Rh1g1 Rb8a8 Rg1h1 Ra8b8 Rh1g1 Rb8a8 Rg1h1 Ra8b8 Rh1g1 Rb8a8 Rg1h1"),
+        ];
+        for (i, (fen, script)) in RIGHTS_SCRIPTS.iter().enumerate() {
+            if i % nshards != shard { continue }
+            random_game_from(&mut cx, &Desc::from_fen(fen), 2, 0, Some(script));
+        }
+        // the fifty-move threshold and the third occurrence falling on the same or on neighbouring plies (precedence)
+        let n4 = tier_n(tier, 48, 1200) / nshards + 1;
+        for i in 0..n4 {
+            let mut d = if i % 2 == 0 { roots[cx.rng.below(roots.len())].clone() } else { Desc::from_fen(SEED_FENS[cx.rng.below(8)]) };
+            d.half = 89 + cx.rng.below(7) as u64;
+            dance_game(&mut cx, &d, 3, 0, 0);
         }
     } else {
         // C15: games from the standard start in every ending mode
@@ -412,7 +439,7 @@ fn suite_game(w: &mut dyn Write, tier: &str, seed: u64, shard: usize, nshards: u
         let start = roots[0].clone();
         for i in 0..n {
             let len = if i % 10 == 0 { cx.rng.below(4) } else { 2 + cx.rng.below(160) };
-            if i % 8 == 3 { let cycles = 2 + cx.rng.below(2); dance_game(&mut cx, &start, cycles, 0); continue }
+            if i % 8 == 3 { let cycles = 2 + cx.rng.below(2); dance_game(&mut cx, &start, cycles, 0, 6); continue }
             if i % 4 == 1 { let pf = PREFIXES[cx.rng.below(PREFIXES.len())]; let l = 10 + cx.rng.below(60); random_game_from(&mut cx, &start, l, 2, Some(pf)); continue }
             random_game(&mut cx, &start, len, if i % 3 == 0 { 0 } else { 4 });
         }
@@ -756,8 +783,15 @@ fn suite_sym(w: &mut dyn Write, tier: &str, seed: u64, shard: usize, nshards: us
 }
 
 // ---------------------------------------------------------------- main
+static LAST_PANIC: std::sync::Mutex<String> = std::sync::Mutex::new(String::new());
 fn main() {
-    std::panic::set_hook(Box::new(|_| {}));
+    // panics are expected inside `quiet`; the hook only remembers where the last one happened, so that a panic escaping
+    // an observation the harness assumed total can be reported with its location
+    std::panic::set_hook(Box::new(|info| {
+        let loc = info.location().map(|l| format!("{}:{}", l.file(), l.line())).unwrap_or_default();
+        let msg = if let Some(s) = info.payload().downcast_ref::<&str>() { s.to_string() } else if let Some(s) = info.payload().downcast_ref::<String>() { s.clone() } else { String::new() };
+        if let Ok(mut g) = LAST_PANIC.lock() { *g = format!("{} {}", loc, msg.replace('|', "/").replace('\n', " ")); }
+    }));
     let args: Vec<String> = std::env::args().collect();
     if args.len() >= 3 && args[1] == "dump" {
         let dir = &args[2];
@@ -796,7 +830,7 @@ fn main() {
         hs.push(std::thread::Builder::new().stack_size(64 << 20).spawn(move || {
             let f = File::create(format!("{}/{}-{}-{}.cases", outdir, suite, variant, shard)).unwrap();
             let mut w = BufWriter::new(f);
-            match suite.as_str() {
+            let body = std::panic::catch_unwind(std::panic::AssertUnwindSafe(|| { match suite.as_str() {
                 "board" => {
                     let flags = match variant.as_str() { "legal" => F_MINIUNI, "san" => F_SANS, "render" => F_RENDER, "fen" => F_REFEN, "all" => F_SANS | F_RENDER | F_REFEN, _ => 0 };
                     let uni = if variant == "universe" { universe() } else { vec![] };
@@ -808,6 +842,11 @@ fn main() {
                 "prim" => suite_prim(&mut w, &tier, seed, shard, nshards, &variant),
                 "sym" => suite_sym(&mut w, &tier, seed, shard, nshards),
                 _ => {}
+            } }));
+            if body.is_err() {
+                // a library call the harness treats as total panicked: recorded as an observation of its own
+                let wh = LAST_PANIC.lock().map(|g| g.clone()).unwrap_or_default();
+                writeln!(w, "\nX|id=crash{}|where={}", shard, wh).unwrap();
             }
             w.flush().unwrap();
         }).unwrap());
